@@ -266,7 +266,9 @@ def check_point(case):
     try:
         w = kern.kernel(xij, r, h)
         dq = kern.dwdq(r, h)
-        g = [0.0, 0.0, 0.0]
+        # the output buffer is re-used by callers (one DWIJ per thread in
+        # the generated loops): it holds the previous pair's values
+        g = [7.0, -3.0, 11.0]
         kern.gradient(xij, r, h, g)
         gh = kern.gradient_h(xij, r, h)
     except Exception as ex:
@@ -329,7 +331,7 @@ def check_point(case):
         xa = np.array(xij, dtype=float)
         cw = ck.py_kernel(xa, r, h)
         cdq = ck.py_dwdq(r, h)
-        cg = np.zeros(3)
+        cg = np.array([7.0, -3.0, 11.0])
         ck.py_gradient(xa, r, h, cg)
         cgh = ck.py_gradient_h(xa, r, h)
         # wrapper computes rij itself from coordinates
@@ -358,7 +360,7 @@ def check_point(case):
         # exactly the wrapper's expression (x*x, not pow(x, 2))
         rr = math.sqrt(xij[0] * xij[0] + xij[1] * xij[1] + xij[2] * xij[2])
         pw = kern.kernel(xij, rr, h)
-        pg = [0.0, 0.0, 0.0]
+        pg = [5.0, 5.0, 5.0]
         kern.gradient(xij, rr, h, pg)
         # the wrapper recomputes r from the coordinates: within the
         # rounding band of a discontinuous support edge it may legitimately
